@@ -29,28 +29,32 @@ FormsOf(k) == CASE k = "vec" -> {"ndarray", "list", "tuple", "strided", "readonl
                 [] k = "num" -> {"float", "np.float64", "0-d", "int"}
 BulkForms == {"list", "strided"}      \* forms every array kind has
 
-VARIABLES kinds,   \* sequence of argument kinds
+VARIABLES name,    \* the name the callable is reached by: its principal name or a documented synonym (to_q / to_quaternion, ecef2lla / ecef2geodetic, ...)
+          kinds,   \* sequence of argument kinds
           forms,   \* sequence of current forms
           answer   \* class of the answer: depends on the values only, so it is a constant of the behaviour
-vars == <<kinds, forms, answer>>
+vars == <<name, kinds, forms, answer>>
 
 KindVectors == UNION { [1..n -> Kinds] : n \in 1..MaxArity }
-Init == /\ kinds \in KindVectors
+Init == /\ name = "principal"
+        /\ kinds \in KindVectors
         /\ forms = [i \in DOMAIN kinds |-> Base(kinds[i])]
         /\ answer = "value-of-the-arguments"
 IsBase == \A i \in DOMAIN kinds : forms[i] = Base(kinds[i])
 Reform(i, f) == /\ IsBase /\ f \in FormsOf(kinds[i]) /\ f # Base(kinds[i])
                 /\ forms' = [forms EXCEPT ![i] = f]
-                /\ UNCHANGED <<kinds, answer>>
+                /\ UNCHANGED <<name, kinds, answer>>
+(* the same call under the other documented name (arguments as they are) *)
+Rename == IsBase /\ name = "principal" /\ name' = "synonym" /\ UNCHANGED <<kinds, forms, answer>>
 IsArr(k) == k \in {"vec", "mat"}
 Bulk(f) == /\ IsBase
            /\ Cardinality({i \in DOMAIN kinds : IsArr(kinds[i])}) > 1
            /\ forms' = [i \in DOMAIN kinds |-> IF IsArr(kinds[i]) THEN f ELSE forms[i]]
-           /\ UNCHANGED <<kinds, answer>>
-Next == (\E i \in DOMAIN kinds : \E f \in FormsOf(kinds[i]) : Reform(i, f)) \/ (\E f \in BulkForms : Bulk(f))
+           /\ UNCHANGED <<name, kinds, answer>>
+Next == (\E i \in DOMAIN kinds : \E f \in FormsOf(kinds[i]) : Reform(i, f)) \/ (\E f \in BulkForms : Bulk(f)) \/ Rename
 Spec == Init /\ [][Next]_vars
 
-TypeOK == /\ kinds \in KindVectors /\ DOMAIN forms = DOMAIN kinds
+TypeOK == /\ name \in {"principal", "synonym"} /\ kinds \in KindVectors /\ DOMAIN forms = DOMAIN kinds
           /\ \A i \in DOMAIN kinds : forms[i] \in FormsOf(kinds[i])
 FormBlind == [][answer' = answer]_vars
 (* within the bound: one argument off the baseline, or all arrays in one common bulk form *)
